@@ -80,6 +80,14 @@ SP["mr_x_cat_x_mr_overlaps_deep"]["profiles"] = [
 _reg3("cat_x_cat_x_mr_overlaps", S.cat("t", 2, "first"), "cat", A2, "cat", M2, "mr", 2, 3, cfgs=[{}], weights=(1,),
       only=OV_ONLY, overlaps=True)
 
+# squared-weight measure (effective-sample-size pairwise tests) in 3-D cubes, missing table category
+# before / between / after the valid ones
+SQ_ONLY = {"counts", "columns_squared_base", "column_weighted_bases", "pairwise_indices", "columns_margin"}
+for _p in ("first", "mid"):
+    _reg3("cat_%s_x_cat_x_cat_squared" % _p, S.cat("t", 2, _p), "cat", A2, "cat", B2, "cat", 2, 3, cfgs=[{}],
+          only=SQ_ONLY, squared=True)
+_reg3("mr_x_cat_x_cat_squared", N2, "mr", A2, "cat", B2, "cat", 1, 2, cfgs=[{}], only=SQ_ONLY, squared=True)
+
 CORE_ONLY = {"counts", "unweighted_counts", "column_index", "row_proportions", "column_proportions", "table_proportions",
              "zscores", "pvals", "rows_margin", "columns_margin", "table_base", "table_margin", "row_labels",
              "column_labels", "population_counts", "columns_scale_mean", "pairwise_indices"}
